@@ -1,0 +1,15 @@
+//go:build !verif
+// +build !verif
+
+package bmt
+
+// Empty twin of verif_gate.go: without the build tag `verif` the gate calls in bmt.go compile to nothing.
+
+const (
+	verifGateSection     = 0
+	verifGateToggle      = 1
+	verifGateFinalToggle = 2
+	verifGateSend        = 3
+)
+
+func verifGate(h *Hasher, n *node, kind int, flag bool) {}
